@@ -109,7 +109,7 @@ Proof. intros a Ha. rewrite <- (app_nil_r (len_prefix a)). apply parse_ok. exact
 (** ================= sdk.Coins ================= *)
 Definition clt (d : bytes) (c : coins) : Prop := forall x, In x (map fst c) -> key_lt d x.
 Definition apos (c : coins) : Prop := Forall (fun x => (0 < snd x)%Z) c.
-Definition dne (c : coins) : Prop := Forall (fun x => fst x <> []) c.
+Definition dne (c : coins) : Prop := Forall (fun x => denom_ok (fst x) = true) c.
 
 Lemma csorted_cons : forall r d v, csorted ((d, v) :: r) = true <-> (clt d r /\ csorted r = true).
 Proof.
@@ -158,7 +158,7 @@ Proof.
     + constructor; [exact Hx|apply IH; exact Hl].
 Qed.
 
-Lemma cadd1_dne : forall d v cs, dne cs -> d <> [] -> dne (cadd1 d v cs).
+Lemma cadd1_dne : forall d v cs, dne cs -> denom_ok d = true -> dne (cadd1 d v cs).
 Proof.
   intros d v cs Hp Hd. unfold dne in *. induction cs as [|[d' v'] r IH]; cbn [cadd1].
   - constructor; [exact Hd|constructor].
@@ -216,10 +216,10 @@ Proof.
   - intros [Hs H]. split; [exact Hs|]. split; intros x Hx; specialize (H x Hx);
       apply andb_true_iff in H; destruct H as [H1 H2].
     + apply Z.ltb_lt. exact H1.
-    + intros E. rewrite E in H2. discriminate.
+    + exact H2.
   - intros [Hs [H1 H2]]. split; [exact Hs|]. intros x Hx. apply andb_true_iff. split.
     + apply Z.ltb_lt. apply H1. exact Hx.
-    + specialize (H2 x Hx). destruct (fst x); [congruence|reflexivity].
+    + exact (H2 x Hx).
 Qed.
 
 Lemma cvalid_nil : cvalid [] = true.
